@@ -218,9 +218,14 @@ theorem check_sound_ret (k : Kernel) (h : k.check = true) (r : Var) (allowedR : 
 
 theorem check_public (k : Kernel) (h : k.check = true) (hp : k.isPublic = true) : k.allowed = [] := by
   simp only [Kernel.check, Bool.and_eq_true, decide_eq_true_eq, Bool.or_eq_true, Bool.not_eq_true'] at h
-  rcases h.1.2 with h' | h'
+  rcases h.1.2.1 with h' | h'
   · simp [hp] at h'
   · simpa using h'
+
+/-- no kernel that passes the check may write a pseudo-argument (module-level mutable state) -/
+theorem check_globals (k : Kernel) (h : k.check = true) : ∀ j ∈ k.allowed, j < k.nreal := by
+  simp only [Kernel.check, Bool.and_eq_true, decide_eq_true_eq, List.all_eq_true] at h
+  exact h.1.2.2
 
 end ScnVerif.Lemmas.Heap
 
